@@ -138,7 +138,7 @@ type Engine struct {
 	seen     map[string]int // signature / predicted-slug throttles
 	realLogs map[*LogSet][]*types.Log
 	sampled  map[string]bool
-	mclass   map[mkey]int64
+	mclass   [5][32]int64
 	resBuf   []Resolution
 }
 
@@ -162,7 +162,7 @@ func (k mkey) String() string {
 }
 
 func newEngine(plan *Plan, spec *Spec, progress func(Pos)) *Engine {
-	e := &Engine{plan: plan, spec: spec, progress: progress, skip: map[Pos]bool{}, seen: map[string]int{}, realLogs: map[*LogSet][]*types.Log{}, sampled: map[string]bool{}, mclass: map[mkey]int64{}}
+	e := &Engine{plan: plan, spec: spec, progress: progress, skip: map[Pos]bool{}, seen: map[string]int{}, realLogs: map[*LogSet][]*types.Log{}, sampled: map[string]bool{}}
 	for _, s := range spec.Skip {
 		e.skip[s] = true
 	}
@@ -179,8 +179,16 @@ func (e *Engine) reset(through int) {
 
 func (e *Engine) class(c string) { e.out.Classes[c]++ }
 
+// wantSample is checked before a sample value is built (building is expensive).
+// Each worker contributes one kind of sample so that the merged evidence shows all kinds.
+func (e *Engine) wantSample(kind string) bool {
+	return e.spec.From == 0 && !e.sampled[kind] && sampleKinds[e.spec.Shard%len(sampleKinds)] == kind
+}
+
+var sampleKinds = []string{"match-true-dynamic", "silent", "decode-accepted", "roundtrip", "decode-rejected"}
+
 func (e *Engine) sample(kind string, v any) {
-	if !e.sampled[kind] && e.spec.From == 0 {
+	if e.wantSample(kind) {
 		e.sampled[kind] = true
 		e.out.Samples = append(e.out.Samples, v)
 	}
@@ -237,10 +245,14 @@ func (e *Engine) Run(emit func(*Flush)) {
 }
 
 func (e *Engine) flushClasses() {
-	for k, v := range e.mclass {
-		e.out.Classes[k.String()] += v
+	for o := range e.mclass {
+		for st, v := range e.mclass[o] {
+			if v != 0 {
+				e.out.Classes[mkey{uint8(o), uint8(st)}.String()] += v
+			}
+		}
 	}
-	e.mclass = map[mkey]int64{}
+	e.mclass = [5][32]int64{}
 }
 
 func (e *Engine) unitRoundTrip(u, blk int) {
@@ -256,7 +268,7 @@ func (e *Engine) unitRoundTrip(u, blk int) {
 		e.out.Evaluations++
 		e.class("roundtrip " + class)
 		e.findings(fs)
-		if enc != nil && len(d.Preds) == 2 && d.Preds[0].Ref.Dynamic {
+		if enc != nil && len(d.Preds) == 2 && d.Preds[0].Ref.Dynamic && e.wantSample("roundtrip") {
 			e.sample("roundtrip", map[string]any{"kind": "round trip", "definition": d.JSON(), "encoding": hex.EncodeToString(enc), "outcome": class})
 		}
 	}
@@ -276,12 +288,12 @@ func (e *Engine) unitDecode(u, i int) {
 		e.class(class)
 		e.findings(fs)
 		if d == nil {
-			if len(b) > 20 {
+			if len(b) > 20 && e.wantSample("decode-rejected") {
 				e.sample("decode-rejected", map[string]any{"kind": "decoder input", "input": hex.EncodeToString(b), "mutation": note, "outcome": class})
 			}
 			continue
 		}
-		if i < len(e.plan.Dec.Bases) && ord != len(e.plan.Dec.Bases[i]) {
+		if i < len(e.plan.Dec.Bases) && ord != len(e.plan.Dec.Bases[i]) && e.wantSample("decode-accepted") {
 			e.sample("decode-accepted", map[string]any{"kind": "decoder input", "input": hex.EncodeToString(b), "mutation": note, "outcome": class, "decoded": d.JSON()})
 		}
 		// a decoded definition is a valid definition: clauses 2 and 3 apply to it
@@ -342,8 +354,9 @@ func kindOf(d *Def) uint8 {
 	return 3
 }
 
-// truth returns (cached per log set) the documented result of predicate p on log i: 1 false, 2 true.
-func (ls *LogSet) truth(p Pred, i int, r Resolution) bool {
+// truthOf returns (cached per log set) the table of documented results of
+// predicate p per log: 0 not yet computed, 1 false, 2 true.
+func (ls *LogSet) truthOf(p Pred) []uint8 {
 	if ls.tr == nil {
 		ls.tr = map[Pred][]uint8{}
 	}
@@ -352,13 +365,7 @@ func (ls *LogSet) truth(p Pred, i int, r Resolution) bool {
 		t = make([]uint8, len(ls.Logs))
 		ls.tr[p] = t
 	}
-	if t[i] == 0 {
-		t[i] = 1
-		if EvalOp(p.VP, r.Value) {
-			t[i] = 2
-		}
-	}
-	return t[i] == 2
+	return t
 }
 
 // matchDef checks clauses 2 and 3 of the statement for one definition.
@@ -383,11 +390,14 @@ func (e *Engine) matchDef(d *Def, posOf func(logIdx int) Pos, prefix string) {
 	ls, lgs := e.logsFor(d)
 	np := len(d.Preds)
 	resAll := make([][]Resolution, np)
+	truth := make([][]uint8, np)
 	hasDyn := false
 	for i, p := range d.Preds {
 		resAll[i] = ls.Resolutions(p.Ref)
+		truth[i] = ls.truthOf(p)
 		hasDyn = hasDyn || p.Ref.Dynamic
 	}
+	var nMatchPass, nNoMatchPass, nNoMatchReject int64
 	if cap(e.resBuf) < np {
 		e.resBuf = make([]Resolution, np)
 	}
@@ -430,7 +440,7 @@ func (e *Engine) matchDef(d *Def, posOf func(logIdx int) Pos, prefix string) {
 				}
 			}
 			if skipped[k] {
-				e.mclass[mkey{4, sit}]++
+				e.mclass[4][sit]++
 				continue
 			}
 			e.out.Evaluations++
@@ -441,7 +451,15 @@ func (e *Engine) matchDef(d *Def, posOf func(logIdx int) Pos, prefix string) {
 			case firstIll < 0:
 				want = RefTrue
 				for j := 0; j < np; j++ {
-					if !ls.truth(d.Preds[j], i, res[j]) {
+					t := truth[j][i]
+					if t == 0 {
+						t = 1
+						if EvalOp(d.Preds[j].VP, res[j].Value) {
+							t = 2
+						}
+						truth[j][i] = t
+					}
+					if t == 1 {
 						want = RefFalse
 						break
 					}
@@ -457,7 +475,7 @@ func (e *Engine) matchDef(d *Def, posOf func(logIdx int) Pos, prefix string) {
 			case got[k]:
 				outcome = 1
 			}
-			e.mclass[mkey{outcome, sit}]++
+			e.mclass[outcome][sit]++
 			addr := d.Contract
 			if !l.SameAddr {
 				addr = OtherAddress
@@ -466,11 +484,11 @@ func (e *Engine) matchDef(d *Def, posOf func(logIdx int) Pos, prefix string) {
 			if fOK && !pan[k] {
 				switch {
 				case answer && passes:
-					e.out.Counters["matching logs that pass the derived filter"]++
+					nMatchPass++
 				case !answer && passes:
-					e.out.Counters["non-matching logs that pass the derived filter"]++
+					nNoMatchPass++
 				case !answer:
-					e.out.Counters["non-matching logs rejected by the derived filter"]++
+					nNoMatchReject++
 				}
 			}
 			bad := ""
@@ -511,12 +529,15 @@ func (e *Engine) matchDef(d *Def, posOf func(logIdx int) Pos, prefix string) {
 					e.findings(fs[len(ffs):])
 				}
 			}
-			if want == RefTrue && kind == 4 && np > 0 {
+			if want == RefTrue && kind == 4 && np > 0 && len(l.Data) >= 96 && len(l.Topics) > 0 && d.Preds[0].VP.Op == 5 && e.wantSample("match-true-dynamic") {
 				e.sample("match-true-dynamic", map[string]any{"kind": "match", "definition": d.JSON(), "log": l.JSON(d.Contract), "match": answer, "documented": true})
 			}
-			if want == RefSilent && !pan[k] && hasDyn {
+			if want == RefSilent && !pan[k] && hasDyn && e.wantSample("silent") {
 				e.sample("silent", map[string]any{"kind": "match", "definition": d.JSON(), "log": l.JSON(d.Contract), "match": answer, "documented": "silent: " + res[firstIll].Class.String()})
 			}
 		}
 	}
+	e.out.Counters["matching logs that pass the derived filter"] += nMatchPass
+	e.out.Counters["non-matching logs that pass the derived filter"] += nNoMatchPass
+	e.out.Counters["non-matching logs rejected by the derived filter"] += nNoMatchReject
 }
